@@ -84,12 +84,42 @@ class ScopeGen:
             out = [Let(f, Lambda([], e, True))]
         else:
             stmts, ret = self.closure_body(depth, vars_, funs)
+            pre = []
+            if r.random() < 0.35:
+                # a fresh variable of the enclosing scope whose ONLY mention anywhere is one syntactic position
+                # inside this nested function: capture analysis has to visit that position or the variable is
+                # never boxed (map key/value, list/tuple element, index, interpolation, ternary arm/condition,
+                # and/or operand, unary operand, call argument, a lambda nested once more)
+                w = self.name('w')
+                wv = self.uniq()
+                u = self.uniq()
+                pre = [Let(w, Num(wv))]
+                pos = r.choice(['mapkey', 'mapval', 'list', 'tuple', 'index', 'interp', 'tern_arm', 'tern_cond', 'or',
+                                'and', 'neg', 'arg', 'nested', 'mapkey', 'mapval'])
+                self.tags.add('sole_mention:' + pos)
+                e = {
+                    'mapkey': lambda: Index(MapLit([(Var(w), Num(u))]), Num(wv)),
+                    'mapval': lambda: Index(MapLit([(Num(1), Var(w))]), Num(1)),
+                    'list': lambda: Index(ListLit([Num(0), Var(w)]), Num(1)),
+                    'tuple': lambda: Index(TupleLit([Var(w), Num(0)]), Num(0)),
+                    'index': lambda: Index(ListLit([Num(u), Num(u + 1)]), Bin('-', Var(w), Num(wv))),
+                    'interp': lambda: Call(Prop(Interp(['<', Var(w), '>']), 'len'), []),
+                    'tern_arm': lambda: Tern(Bool(False), Num(0), Var(w)),
+                    'tern_cond': lambda: Tern(Bin('>', Var(w), Num(-1)), Num(u), Num(0)),
+                    'or': lambda: Or(Nil(), Var(w)),
+                    'and': lambda: And(Bool(True), Var(w)),
+                    'neg': lambda: Un('-', Var(w)),
+                    'arg': lambda: Call(Prop(ListLit([Var(w)]), 'len'), []),
+                    'nested': lambda: Call(Group(Lambda([], Var(w), True)), []),
+                }[pos]()
+                ret = Bin('+', ret, Group(e))
             if form == 'fn':
                 out = [Fn(f, [], stmts + [Return(ret)])]
             elif form == 'fn_implicit':
                 out = [Fn(f, [], stmts + [Implicit(ret)])]
             else:
                 out = [Let(f, Lambda([], stmts + [Return(ret)], False))]
+            out = pre + out
         funs.append(f)
         return out
 
